@@ -260,3 +260,31 @@ MULTI['C17'] = dict(
         {'obligation': 'lemma_rank_pairs_unique', 'clause': 'is_rank_pairs_of(r1, m) && is_rank_pairs_of(r2, m) ==> r1 == r2'},
     ],
     search=[['c17-search', '{seed}', '{n}']], search_n={'quick': 3000, 'thorough': 30000})
+
+
+# ---------------------------------------------------------------------------------------------------
+# C06: formatting a range and parsing the text back gives the same range (token-list level proved; text layer assumed)
+RT_ALLOWED = [DERIVE_ALLOWED, r'^external_body pub fn (into_iter|f32_eq|f32_ne|verif_strip_spaces|verif_is_empty|verif_split_commas)',
+              r'^uninterp spec pub uninterp spec fn (f32_eq_spec|parse_tok|strip_spaces|split_commas|unit_interval)']
+
+MULTI['C06'] = dict(
+    parts=[_v('rt', RT_ALLOWED), _v('fmt', FMT_ALLOWED), _v('list', LIST_ALLOWED), _v('token', TOKEN_ALLOWED), _v('range', RANGE_ALLOWED),
+           _k_token('TOKEN-STR', TOK_MEANING), _k_token('TOKEN-TEXT', [], TOK_DISPLAY)],
+    assumptions=[
+        'TOKEN-LIST LEVEL. The chain is: (1) unit FMT, real code: the token list built by Display for HandRange equals canon(contents); (2) unit RT, specification lemmas: lemma_round_trip -- folding the tokens of canon(m) in order into the empty map gives m again, the same combos with identical weights (every token lists only combos of m with their weights: the runs found by the scan are runs of complete rank pairs with f32-equal weights; every combo of m is listed by some token: complete rank pairs by their row\'s run tokens, all others by the leftover tokens), for every range m whose keys are in canonical card order (what CardPair::new builds) and on whose weights f32 == is identity (weights_plain: no 0.0 / -0.0 mixture); (3) unit TOKEN, real code: a token expands to expand_combos; (4) unit LIST, real code: HandRange::from_str folds the accepted pieces in order; lemma_c06 composes them: text_of_tokens(s, canon(m)) ==> range_of_text(s) == m',
+        'TEXT LAYER ASSUMED (text_of_tokens): the tail of Display joins the tokens\' own texts with commas (core::fmt::Formatter); each token\'s text parses back to that token -- for weight 1 this is proved (thorough tier, Kani, complete over ranks / suits / shapes: Display writes exactly the notation that the tok_meaning_* harnesses parse to the same value), for other weights it rests on the round trip of f32 Display / from_str (std guarantees shortest round-trip digits, never an exponent) and on the weight grammar [01](\\.[0-9]+)? accepting that text; String::replace / split invert the join (token texts contain neither blanks nor commas)',
+        'second sentence of the property (token text round trip): weight 1 by the two Kani harness families above; other weights as in the previous item',
+        'KNOWN FINDING (see known_findings.txt): a weight of -0.0 satisfies 0 <= w <= 1 but prints as ":-0", which the weight grammar rejects; from_str silently skips the token and the combo is lost',
+        DERIVE, 'key-model axioms for CardPair / RankPair; f32 == / != uninterpreted (R16); callee contracts rank_pairs / orphan_card_pairs proved in unit RANGE',
+    ] + LIST_ASSUME[1:],
+    not_decided=['the text layer (Formatter, f32 Display, String::replace / split)'],
+    no_witness_undecided='the obligations of FMT / LIST / TOKEN pin the exact token list and expansion order, which is more than "the text parses back to the same range"',
+    probes=[{'key': 'C06::negative-zero-weight', 'args': ['c06', 'KsKh:-0'], 'what': 'the text of {KsKh: -0.0} parses back to the same range'}],
+    samples=[
+        {'obligation': 'lemma_round_trip', 'clause': 'is_rank_pairs_of(rps, m) && is_orphans_of(orph, rps, m) && weights_plain(m) && keys_canonical(m) ==> apply_tokens(canonical(rps, orph), len) =~= m'},
+        {'obligation': 'lemma_c06', 'clause': '... && text_of_tokens(s, canon(m)) ==> range_of_text(s) =~= m'},
+        {'obligation': 'HandRange::fmt (prefix, re-hosted as fmt_tokens) postcondition', 'clause': 'res@ =~= canon(self.0@)'},
+        {'obligation': 'HandRange::from_str postcondition (unit LIST)', 'clause': 'r is Ok && r->Ok_0.0@ == range_of_text(s@)'},
+    ],
+    search=[['c06-search', '{seed}', '{n}']], search_n={'quick': 5000, 'thorough': 50000})
+
